@@ -561,6 +561,14 @@ func (in *Interp) funcNameForPC(pc *Term) Value {
 			return runtimeName(f.fn)
 		}
 	}
+	if in.path != nil {
+		// closures (method values among them) that got an address on this path
+		for _, f := range in.path.funcsWithAddr {
+			if f.code == pc && f.fn != nil {
+				return runtimeName(f.fn)
+			}
+		}
+	}
 	for _, f := range in.extraFuncs {
 		if f.code == pc {
 			if f.fn != nil {
@@ -574,20 +582,43 @@ func (in *Interp) funcNameForPC(pc *Term) Value {
 
 // runtimeName approximates runtime.Func.Name for an SSA function.
 func runtimeName(fn *ssa.Function) string {
-	if fn.Pkg == nil {
+	// a method value x.M is a closure over the compiler's "-fm" wrapper of the method
+	if strings.HasSuffix(fn.Name(), "$bound") {
+		if m, ok := fn.Object().(*types.Func); ok {
+			if mf := fn.Prog.FuncValue(m); mf != nil {
+				return runtimeName(mf) + "-fm"
+			}
+		}
+	}
+	pkg := fn.Pkg
+	if o := fn.Origin(); pkg == nil && o != nil {
+		pkg = o.Pkg // instantiations of generic functions belong to no SSA package
+	}
+	if pkg == nil {
 		return fn.String()
 	}
-	path := fn.Pkg.Pkg.Path()
+	path := pkg.Pkg.Path()
 	if recv := fn.Signature.Recv(); recv != nil {
 		t := recv.Type()
+		// the runtime names every instantiation of a generic type alike: T[...]
+		tname := func(n *types.Named) string {
+			if n.TypeArgs() != nil && n.TypeArgs().Len() > 0 {
+				return n.Obj().Name() + "[...]"
+			}
+			return n.Obj().Name()
+		}
 		if p, ok := t.(*types.Pointer); ok {
-			return fmt.Sprintf("%s.(*%s).%s", path, p.Elem().(*types.Named).Obj().Name(), fn.Name())
+			return fmt.Sprintf("%s.(*%s).%s", path, tname(p.Elem().(*types.Named)), fn.Name())
 		}
 		if n, ok := t.(*types.Named); ok {
-			return fmt.Sprintf("%s.%s.%s", path, n.Obj().Name(), fn.Name())
+			return fmt.Sprintf("%s.%s.%s", path, tname(n), fn.Name())
 		}
 	}
 	name := fn.Name()
+	if o := fn.Origin(); o != nil && o != fn {
+		// instantiation of a generic function: pkg.F[...] whatever the type arguments
+		return path + "." + o.Name() + "[...]"
+	}
 	if fn.Parent() != nil {
 		// closures: pkg.outer.funcN
 		return runtimeName(fn.Parent()) + "." + strings.Replace(strings.TrimPrefix(name, fn.Parent().Name()+"$"), "$", ".", -1)
